@@ -91,7 +91,7 @@ def site_adm(site, adm_id):
     return adms['d1']
 
 
-def network_adm(name, adm_id, ends):
+def network_adm(name, adm_id, ends, kinds=None):
     """ends: list of (site, uplink) shared with site models, plus an own exchange switch when ends has one member"""
     t = SubstrateTopology()
     ps = []
@@ -104,8 +104,9 @@ def network_adm(name, adm_id, ends):
         ps.append(xs.add_interface(name=f'{name}-x-p0', node_id=f'{name}-x-p0', itype=InterfaceType.TrunkPort, capacities=Capacities(bw=10)))
     t.add_link(name=f'{name}-link', node_id=f'{name}-link', ltype=LinkType.L2Path, interfaces=ps)
     arm = t.as_arm()
-    for p in ps:
-        annotate(arm, p.node_id, 'LC@d1')
+    for i, p in enumerate(ps):
+        # which kinds of delegation the (shared) port carries in this model: both, labels only or capacities only
+        annotate(arm, p.node_id, (kinds[i] if kinds and i < len(kinds) else 'LC') + '@d1')
     adms = arm.generate_adms(delegation_guids={'d1': adm_id})
     arm.delete_graph()
     return adms['d1']
@@ -116,6 +117,9 @@ FAMILIES = {
     'F4': [('site', 'A', 'ADM-A'), ('site', 'B', 'ADM-B'), ('net', 'N1', 'ADM-N1', (('A', 1), ('B', 1))),
            ('net', 'N2', 'ADM-N2', (('B', 2),))],
     'F2': [('site', 'A', 'ADM-A'), ('net', 'N2', 'ADM-N2', (('A', 2),))],
+    # the same shapes with shared ports that carry only one kind of delegation in the network model
+    'F2c': [('site', 'A', 'ADM-A'), ('net', 'N2', 'ADM-N2', (('A', 2),), ('C', 'L'))],
+    'F3m': [('site', 'A', 'ADM-A'), ('site', 'B', 'ADM-B'), ('net', 'N1', 'ADM-N1', (('A', 1), ('B', 1)), ('C', 'L'))],
 }
 DELEG_PROPS = ('LabelDelegations', 'CapacityDelegations')
 
@@ -151,7 +155,7 @@ class CBMModel(Model):
             if spec[0] == 'site':
                 site_adm(spec[1], spec[2])
             else:
-                network_adm(spec[1], spec[2], spec[3])
+                network_adm(spec[1], spec[2], spec[3], spec[4] if len(spec) > 4 else None)
             self.adm_ids.append(spec[2])
         self.sources = {a: graph_content(a) for a in self.adm_ids}
         self.merged = ()
@@ -292,7 +296,7 @@ REPLAY = MODELS
 
 def run(report):
     q = report.tier == 'quick'
-    for fam, depth in (('F2', 4), ('F3', 6 if q else 7), ('F4', 4 if q else 8)):
+    for fam, depth in (('F2', 4), ('F2c', 4), ('F3', 6 if q else 7), ('F3m', 5 if q else 7), ('F4', 4 if q else 8)):
         g = bfs(report, fam, MODELS[fam], depth=depth, chunk=2,
                 rule=f'family {fam}: merge(X) / unmerge(X) / snapshot / rollback histories to depth {depth}; the combined graph is '
                      f'compared with the reference union of the merged set after every step (so equal sets reached by different '
